@@ -80,10 +80,18 @@ func Run(ctx *common.Ctx) {
 			kwPool, kwChance = auxIDs, 25
 		}
 		var ll, body, gds []string
+		bodySpelling := hasRest && ctx.Rng.Chance(35)
+		if bodySpelling {
+			ctx.Hist("rest-spelled-&body")
+		}
 		for _, d := range ds {
 			switch {
 			case d.marker != "":
-				ll = append(ll, d.marker)
+				if d.marker == "&rest" && bodySpelling {
+					ll = append(ll, "&body") // the same marker under its other name
+				} else {
+					ll = append(ll, d.marker)
+				}
 				gds = append(gds, fmt.Sprintf("{| d_name := %s; d_def := None |}", map[string]string{"&optional": "POptional", "&rest": "PRest", "&key": "PKey", "&aux": "PAux", "&allow-other-keys": "PAllow"}[d.marker]))
 			case d.def != nil:
 				ll = append(ll, fmt.Sprintf("(%s %d)", pnames[d.id], *d.def))
@@ -102,6 +110,9 @@ func Run(ctx *common.Ctx) {
 			ctx.Violate("defun with a well-formed lambda list failed", def, o.Err+": "+o.Msg, nil)
 			continue
 		}
+		// a second name for the same definition, first defined with a different lambda list (required
+		// parameters only, or &optional/&rest only) and a caller compiled against that earlier definition
+		redef := ctx.Rng.Chance(45)
 		for k := 0; k < perList; k++ {
 			// argument vector: positional integers, then (if keys exist) keyword material
 			var args, gargs []string
@@ -145,6 +156,22 @@ func Run(ctx *common.Ctx) {
 			}
 			call := fmt.Sprintf("(%s %s)", name, strings.Join(args, " "))
 			out := common.EvalTimeout(scope, call, 3*time.Second)
+			if redef && k < 4 {
+				// history: (defun f <other list>) (defun caller () (f args)) (defun f <this list>) (caller)
+				other := common.Pick(ctx.Rng, []string{"(qa)", "(qa qb)", "(qa qb qc)", "()", "(&optional qa qb)", "(&rest qr)", "(qa &key qk)"})
+				// fresh names per history: a name redefined more than once runs into another, recorded defect (C08)
+				rname := fmt.Sprintf("vrf%d-%d", fn, k)
+				cname := fmt.Sprintf("vcl%d-%d", fn, k)
+				prog := fmt.Sprintf("(defun %s %s 0) (defun %s () (%s %s)) (defun %s (%s) (list %s)) (%s)",
+					rname, other, cname, rname, strings.Join(args, " "), rname, strings.Join(ll, " "), strings.Join(body, " "), cname)
+				o2 := common.EvalTimeout(scope, prog, 3*time.Second)
+				ctx.Meta.Evaluations++
+				ctx.Hist("redefinition-history")
+				if o2.Err != out.Err || (o2.Err == "" && o2.Printed != out.Printed) || (o2.Err != "" && arityKind(o2.Msg) != arityKind(out.Msg)) {
+					ctx.Violate("a call compiled before the function was redefined with another lambda list binds differently from the same call made afresh",
+						prog, common.ShowOutcome(o2), "the outcome of "+call+": "+common.ShowOutcome(out))
+				}
+			}
 			var gout, shown string
 			switch {
 			case out.Err == "":
@@ -189,12 +216,22 @@ func Run(ctx *common.Ctx) {
 		}
 	}
 	ctx.Meta.DistinctNontrivial = len(distinct)
-	ctx.Meta.Rule = "lambda lists: 0-3 required x 0-2 &optional (60% with a literal default) x &rest (35%) x &key with 0-3 keys (50%, 10% &allow-other-keys) x &aux (25%); per list 14 (thorough 30) argument vectors: 0-6 positional integers (6% a keyword naming a key parameter instead; 25% a keyword naming the &aux parameter when the list has &rest and &aux but no &key) followed by 0-3 keyword/value pairs (12% unknown key, 7% missing value, duplicates possible); the body reports every parameter or :unbound; distinct = distinct (lambda list, argument vector) pairs"
+	ctx.Meta.Rule = "lambda lists: 0-3 required x 0-2 &optional (60% with a literal default) x &rest (35%, a third of them spelled &body) x &key with 0-3 keys (50%, 10% &allow-other-keys) x &aux (25%); per list 14 (thorough 30) argument vectors: 0-6 positional integers (6% a keyword naming a key parameter instead; 25% a keyword naming the &aux parameter when the list has &rest and &aux but no &key) followed by 0-3 keyword/value pairs (12% unknown key, 7% missing value, duplicates possible); the body reports every parameter or :unbound; for 45% of the lambda lists the first four calls are repeated through a caller compiled while the function still had another lambda list (redefinition history); distinct = distinct (lambda list, argument vector) pairs"
 	header := "From C04 Require Import Model Spec Corr.\nOpen Scope N_scope.\n"
 	footer := "Definition res := Eval vm_compute in check_all cases.\nPrint res.\nDefinition gcount := Eval vm_compute in guard_count cases.\nPrint gcount.\n"
 	ctx.WriteShards("cases", header, "case", footer, terms, descs, 16)
 	ctx.ReplayKnownLisp()
 	RunArity(ctx)
+}
+
+func arityKind(msg string) string {
+	switch {
+	case strings.HasPrefix(msg, "Too many arguments"):
+		return "too-many"
+	case strings.HasPrefix(msg, "Too few arguments"):
+		return "too-few"
+	}
+	return "other"
 }
 
 func gValue(v slip.Object) string {
